@@ -11,6 +11,7 @@ From Coq Require Import String.
 From Coq Require Import ZArith List Bool.
 Import ListNotations.
 Require Import WnV.Base.Sx WnV.Model.Val WnV.Model.Tables WnV.Model.Query WnV.Model.Export WnV.Proofs.ExportProofs.
+Require Import WnV.Proofs.ExportChildren.
 Local Open Scope Z_scope.
 
 (* ---- E1: export refuses exactly the lexicon lists whose identifier sets clash *)
@@ -223,4 +224,150 @@ Theorem C03_sample_precheck :
          _precheck sample_db (t_lexicons sample_db ++ t_lexicons sample_db) = WnError.
 Proof. exact (@sample_precheck). Qed.
 Print Assumptions C03_sample_precheck.
+
+(* ---- E6: the lexicon attributes, metadata and (>= 1.1) logo and dependencies are copied from the lexicon row *)
+Theorem C03_E6_lexicon :
+  forall (d : db) (mt : mtab) (lex : lexicon_row) (ver : list Z) (v : val),
+         _export_lexicon d mt lex ver = Ok v -> lexicon_rel d mt (ge_1_1 ver) lex v.
+Proof. exact (@E6_lexicon). Qed.
+Print Assumptions C03_E6_lexicon.
+
+Theorem C03_E6_lexicon_meta :
+  forall (d : db) (mt : mtab) (rowid : Z) (lex : lexicon_row) (ver : list Z) (v : val),
+         get_lexicon d rowid = Ok lex ->
+         _export_lexicon d mt lex ver = Ok v ->
+         In lex (t_lexicons d) /\
+         lex_rowid lex = rowid /\ vget v (K "meta") = meta_val mt (lex_metadata lex).
+Proof. exact (@E6_lexicon_meta). Qed.
+Print Assumptions C03_E6_lexicon_meta.
+
+(* ---- E7: forms: written form, script, id, and the tags / (>= 1.1) pronunciations rows of each form in rowid order with all their columns (no lexicon filter: see entry_forms_In) *)
+Theorem C03_E7_forms :
+  forall (d : db) (mt : mtab) (lex : lexicon_row) (ver : list Z) (v : val),
+         wf_entry_rowids d = true ->
+         _export_lexicon d mt lex ver = Ok v ->
+         Forall2 (entry_forms_rel d (ge_1_1 ver)) (exported_entries d (lex_rowid lex))
+           (vlist v (K "entries")).
+Proof. exact (@E7_forms). Qed.
+Print Assumptions C03_E7_forms.
+
+Theorem C03_entry_forms_In :
+  forall (d : db) (e : entry_row) (f : form_row),
+         In f (entry_forms d e) <-> In f (t_forms d) /\ fm_entry_rowid f = en_rowid e.
+Proof. exact (@entry_forms_In). Qed.
+Print Assumptions C03_entry_forms_In.
+
+(* ---- E8: senses: synset id, lexicalized, adjposition, metadata; examples and counts = the rows of the sense owned by the exported lexicon, in rowid order; relations = the sense-sense then sense-synset relation rows of the lexicon (de-duplicated as SELECT DISTINCT does; exactly the rows when they are distinct and their targets are in the lexicon) *)
+Theorem C03_E8_senses :
+  forall (d : db) (mt : mtab) (lex : lexicon_row) (ver : list Z) (v : val),
+         wf_entry_rowids d = true ->
+         wf_sense_rowids d = true ->
+         wf_sense_example_rowids d = true ->
+         wf_count_rowids d = true ->
+         _export_lexicon d mt lex ver = Ok v ->
+         Forall2
+           (fun (e : entry_row) (ev : val) =>
+            Forall2 (sense_rel d mt (lex_rowid lex)) (entry_senses d (lex_rowid lex) e)
+              (vlist ev (K "senses"))) (exported_entries d (lex_rowid lex))
+           (vlist v (K "entries")).
+Proof. exact (@E8_senses). Qed.
+Print Assumptions C03_E8_senses.
+
+Theorem C03_E8_relations_all :
+  forall (d : db) (r : Z) (s : sense_row),
+         wf_relations_distinct d r = true ->
+         wf_relation_refs d r = true ->
+         In s (t_senses d) ->
+         sense_relations_of d r s = rels_from (t_sense_relations d) r (se_rowid s) /\
+         sense_synset_relations_of d r s = rels_from (t_sense_synset_relations d) r (se_rowid s).
+Proof. exact (@E8_relations_all). Qed.
+Print Assumptions C03_E8_relations_all.
+
+(* ---- E9: synsets: pos, lexicalized, lexfile, metadata; definitions (text, language, source sense, metadata), examples and relations = the rows of the synset owned by the lexicon; ILIDefinition from the proposed_ilis row when it has a text *)
+Theorem C03_E9_synsets :
+  forall (d : db) (mt : mtab) (lex : lexicon_row) (ver : list Z) (v : val),
+         wf_synset_rowids d = true ->
+         wf_definition_rowids d = true ->
+         wf_synset_example_rowids d = true ->
+         wf_proposed_ili_rowids d = true ->
+         _export_lexicon d mt lex ver = Ok v ->
+         Forall2 (synset_rel d mt (lex_rowid lex)) (lexicon_synsets d (lex_rowid lex))
+           (vlist v (K "synsets")).
+Proof. exact (@E9_synsets). Qed.
+Print Assumptions C03_E9_synsets.
+
+Theorem C03_E9_relations_all :
+  forall (d : db) (r : Z) (ss : synset_row),
+         wf_relations_distinct d r = true ->
+         wf_relation_refs d r = true ->
+         In ss (t_synsets d) ->
+         synset_relations_of d r ss = rels_from (t_synset_relations d) r (sy_rowid ss).
+Proof. exact (@E9_relations_all). Qed.
+Print Assumptions C03_E9_relations_all.
+
+Theorem C03_lexicalized_of_nz :
+  forall (rowid : Z) (flag : bool), rowid <> 0 -> lexicalized_of rowid flag = flag.
+Proof. exact (@lexicalized_of_nz). Qed.
+Print Assumptions C03_lexicalized_of_nz.
+
+(* ---- readings that are false for the faithful model, with witnesses (duplicate relation rows are exported once; a relation whose target lies in another lexicon is dropped; no ILIDefinition for a proposed ILI without text; rowid 0), and non-vacuity on a real dump *)
+Theorem C03_witness_children :
+  (wf_synset_rowids w_db = true /\
+          wf_definition_rowids w_db = true /\
+          wf_synset_example_rowids w_db = true /\ wf_proposed_ili_rowids w_db = true) /\
+         match _export_lexicon w_db [] (w_lex 1 "x") [1; 1] with
+         | Ok v =>
+             map
+               (fun sv : val =>
+                (vget sv (K "id"), vget sv (K "lexicalized"),
+                 Datatypes.length (vlist sv (K "relations")), vhas sv (K "ili_definition"),
+                 vget sv (K "ili"))) (vlist v (K "synsets")) =
+             [(VStr (K "x-s0"), VBool false, 0%nat, false, VStr []);
+              (VStr (K "x-s1"), VBool true, 1%nat, false, VStr []);
+              (VStr (K "x-s2"), VBool true, 0%nat, false, VStr (K "in"))]
+         | _ => False
+         end /\
+         Datatypes.length (rels_from (t_synset_relations w_db) 1 1) = 3%nat /\
+         has_proposed w_db (w_synset 2 "x-s2" 1) = true /\
+         sy_lexicalized (w_synset 0 "x-s0" 1) = true /\
+         wf_relations_distinct w_db 1 = false /\ wf_relation_refs w_db 1 = false.
+Proof. exact (@witness_children). Qed.
+Print Assumptions C03_witness_children.
+
+Theorem C03_sample_wf_children :
+  wf_sense_example_rowids sample_db = true /\
+         wf_synset_example_rowids sample_db = true /\
+         wf_count_rowids sample_db = true /\
+         wf_definition_rowids sample_db = true /\
+         wf_proposed_ili_rowids sample_db = true /\
+         wf_relations_distinct sample_db 1 = true /\ wf_relation_refs sample_db 1 = true.
+Proof. exact (@sample_wf_children). Qed.
+Print Assumptions C03_sample_wf_children.
+
+Theorem C03_sample_children_present :
+  match get_lexicon sample_db 1 with
+         | Ok lex =>
+             match _export_lexicon sample_db sample_mt lex [1; 1] with
+             | Ok v =>
+                 let senses :=
+                   flat_map (fun ev : val => vlist ev (K "senses")) (vlist v (K "entries")) in
+                 let forms :=
+                   flat_map (fun ev : val => vget ev (K "lemma") :: vlist ev (K "forms"))
+                     (vlist v (K "entries")) in
+                 let synsets := vlist v (K "synsets") in
+                 let cnt :=
+                   fun (l : list val) (k : str) =>
+                   Datatypes.length (flat_map (fun x : val => vlist x k) l) in
+                 (cnt senses (K "relations"), cnt senses (K "examples"),
+                  cnt senses (K "counts"), cnt synsets (K "relations"),
+                  cnt synsets (K "definitions"), cnt synsets (K "examples"),
+                  cnt forms (K "pronunciations"),
+                  Datatypes.length (filter (fun sv : val => vhas sv (K "ili_definition")) synsets)) =
+                 (2%nat, 2%nat, 4%nat, 5%nat, 2%nat, 1%nat, 2%nat, 1%nat)
+             | _ => False
+             end
+         | _ => False
+         end.
+Proof. exact (@sample_children_present). Qed.
+Print Assumptions C03_sample_children_present.
 
